@@ -1,6 +1,6 @@
 """C01 — library round trip is lossless for every writer, codec and cipher configuration"""
 from vlib.flow import Check
-from props import _stream, _archive
+from props import _stream, _archive, _pipeline
 
 META = {
     "level": "proof",
@@ -16,4 +16,5 @@ def run(tier, seed, replay=None):
                      "KDF and PHC codec are functions (observed per case)"]
     c.proofs()
     _stream.step(c, "C01")
+    _pipeline.step(c, "C01")
     return c.finish("proof", _archive.TRUSTED + _stream.TRUSTED)
